@@ -239,7 +239,7 @@ impl Prop for C14 {
     }
     fn plan(&self, tier: Tier) -> Plan {
         match tier {
-            Tier::Quick => Plan { cases: 1_000_000, tape_len: 300 },
+            Tier::Quick => Plan { cases: 2_000_000, tape_len: 300 },
             Tier::Thorough => Plan { cases: 30_000_000, tape_len: 420 },
         }
     }
